@@ -9,7 +9,8 @@ LEVEL = "exploration"
 RULE = ("Hypothesis-generated histories of 1-4 reaction steps (cellgen.py): each step reacts an initial solution, the product of "
         "the previous step or a MIX of 2-3 solutions (fractions 0.05-1.5, occasionally negative) with a subset of REACTION "
         "(formulas/phase names, lists or 'in n steps', mol/mmol/umol), EQUILIBRIUM_PHASES (1-4, targets, amounts incl. 0, "
-        "dissolve_only/precipitate_only, alternative formula), EXCHANGE (explicit incl. HX / -equilibrate), SURFACE (no_edl, DDL, "
+        "dissolve_only/precipitate_only, alternative formula incl. pseudo-phase Fix_pH with acid/base; follow-up steps that keep "
+        "the phase list and change / add / remove the alternative formula or an amount), EXCHANGE (explicit incl. HX / -equilibrate), SURFACE (no_edl, DDL, "
         "-donnan, -diffuse_layer, only_counter_ions; defined or equilibrated), GAS_PHASE (fixed P / fixed V), SOLID_SOLUTIONS "
         "(ideal, binary Guggenheim), KINETICS (5 rate laws with -formula, Runge-Kutta), newly defined or carried over through "
         "SAVE/COPY, INCREMENTAL_REACTIONS on/off, batch or RUN_CELLS, optional REACTION_TEMPERATURE; phreeqc.dat, wateq4f.dat, "
@@ -148,7 +149,8 @@ def check_step(info, D0, D1, phases):
             # unit of rounding of that larger amount (seen: Nesquehonite 1.45e-6 mol -> -1.78e-15 mol beside 10 mol of
             # Magnesite); NEG_TOL = 1e-12 mol is six orders below the smallest amount the generator defines
             if v < -NEG_TOL or v != v:
-                raise Violation("negative_amount", "%s = %r in the dump after the step of cell %d" % (label, v, info["cell"]))
+                raise Violation("negative_amount", "%s = %r in the dump after the step of cell %d" % (label, v, info["cell"]),
+                                {"abs": abs(v), "cell": info["cell"]})
     # what moved (per reservoir kind)
     moved = False
     exhausted = appeared = False
@@ -239,7 +241,7 @@ class _Quiet(object):
 
 EXCURSION_ABS = 1.5e-8      # unit of rounding of 1e8 mol, the largest pure-phase delta reset() lets through
 ALT_STEP_SIZES = ([100, 10], [3, 2])
-PATH_EXCUSE = "excluded_trigger:deficit_below_1.5e-8mol_that_closes_with_another_newton_step_size"
+PATH_EXCUSE = "excluded_trigger:discrepancy_below_1.5e-8mol_that_closes_with_another_newton_step_size"
 
 
 def check_case(case, ctx):
@@ -250,12 +252,14 @@ def check_case(case, ctx):
     Newton path, not to the bookkeeping.  An element_balance discrepancy of at most EXCURSION_ABS mol is therefore
     re-examined with other documented step sizes (KNOBS -step_size / -pe_step_size); if the same steps then complete and
     every inventory closes, the case is excluded (counted); if it persists, or the second run cannot complete the step,
-    the violation stands.  Larger discrepancies, charge, negative amounts and missing entities are never re-examined."""
+    the violation stands.  The same holds for a reactant stored with a negative amount of at most EXCURSION_ABS mol (seen:
+    1 mol of Mirabilite dissolves completely and is saved with -5.8e-11 mol, the unit of rounding of 4e5 mol; closes with
+    the other step sizes).  Larger discrepancies, charge and missing entities are never re-examined."""
     try:
         return _guarded(case, ctx)
     except Violation as v:
         d = v.detail if isinstance(v.detail, dict) else None
-        if v.oracle != "element_balance" or d is None or not (d["abs"] <= EXCURSION_ABS):
+        if v.oracle not in ("element_balance", "negative_amount") or d is None or not (d["abs"] <= EXCURSION_ABS):
             raise
         if case.get("knobs_default_step_size") or case.get("knobs_step_size"):
             raise
@@ -400,6 +404,10 @@ def _check_case(case, ctx):
             classes.append("gas_fixed_" + s["gas"]["fixed"])
         if isinstance(s.get("pp"), dict) and any(p["alt"] for p in s["pp"]["phases"]):
             classes.append("pp_alt_formula")
+        if s.get("pp_variant"):
+            classes.append("pp_same_list_" + s["pp_variant"])
+        if isinstance(s.get("pp"), dict) and any(p["name"] == "Fix_pH" for p in s["pp"]["phases"]):
+            classes.append("pp_fix_pH")
         if s.get("o2_pp_and_gas_resolved"):
             classes.append("excluded_trigger:o2_as_pure_phase_and_in_gas_phase")
         if isinstance(s.get("exch"), dict):
